@@ -155,7 +155,12 @@ def conversion_layouts(ctx):
     for c in find(fi.node, ast.Call, lambda c: call_name(c) == "findall"):
         pat = c.args[0] if c.args else None
         if isinstance(pat, ast.Constant) and isinstance(pat.value, str) and "imroTbl" in src(c):
-            nfields = pat.value.count("[0-9]*")
+            import re as _re
+            try:
+                groups = _re.compile(pat.value).groups
+            except _re.error:
+                groups = 0
+            nfields = groups if groups > 1 else pat.value.count("[0-9]*")
     out = {}
     for cname, cls in DEVICE_CLASSES.items():
         ref = [None]
@@ -272,6 +277,21 @@ def d1_sync_gain(ctx, rule_id="D1"):
     ctx.note(f"conversion-vector layouts evaluated on {nmod} count assignments (NC 1..5 x NSYNC 0..2; nidq categories 0..2 each)")
 
 
+def _model_findings(ctx, fi):
+    """defects established by the value model while extracting the vectors (e.g. rows ordered by a text column)"""
+    (layouts, _) = conversion_layouts(ctx)
+    seen = set()
+    n = 0
+    for cname, (ret, ex) in layouts.items():
+        for node, msg in getattr(ex, "findings", []):
+            if msg in seen:
+                continue
+            seen.add(msg)
+            n += 1
+            ctx.violation(fi, node, node, f"[{cname}] {msg}", key="model:" + msg[:40], name_free=True)
+    return n
+
+
 def d_analog_layout(ctx, rule_id):
     """C01's view of D2 + D8: every analog channel gets its own generation / stream / category factor."""
     ctx.rule(rule_id, "analog channels convert with range / max-int / their own gain (NP2: 80; NP1: IMRO AP gain for ap, LF gain for lf, entry i for channel i; "
@@ -283,7 +303,8 @@ def d_analog_layout(ctx, rule_id):
         ctx.violation(fi, node if node is not None else fi.node, node if node is not None else f"{cname} '{key}' counts {m}",
                       f"[{cname}] with counts {m} channel {p_} of the '{key}' vector converts with {_show(got)}; expected {_show(want)}",
                       key=f"analog:{cname}:{key}", name_free=True)
-    if not bad:
+    nf = _model_findings(ctx, fi)
+    if not bad and not nf:
         ctx.ok(fi, fi.node, "analog factors", "every analog channel carries its own factor", key="analog")
 
 
@@ -303,6 +324,7 @@ def d2_ap_lf(ctx):
         ctx.violation(fi, node if node is not None else fi.node, node if node is not None else f"{cname} '{key}' counts {m}", f"[{cname}] with counts {m} channel {p_} of the '{key}' vector converts with {_show(got)}; expected {_show(want)} "
                       f"(G3 = AP gain, G4 = LF gain of the IMRO entry; md[..] = metadata field)", key=f"formula:{cname}:{key}", name_free=True)
         seen.add((cname, key))
+    _model_findings(ctx, fi)
     for cname in ("imec-NP2", "imec-NP1"):
         for key in ("ap", "lf"):
             if (cname, key) not in seen:
